@@ -49,6 +49,13 @@ class W:
             self.nodes[p] = {"p": p, "k": "f", "data": data, "mode": mode, "mtime": self._tick()}
         return p
 
+    def fifo(self, p, mode=0o644):
+        """a named pipe: for the commands an entry like any other (renamed, unlinked, never opened); the model and the
+        snapshots see an empty regular file"""
+        if self._parents(p):
+            self.nodes[p] = {"p": p, "k": "f", "data": b"", "mode": mode, "mtime": self._tick(), "special": "fifo"}
+        return p
+
     def link(self, p, target):
         if self._parents(p):
             self.nodes[p] = {"p": p, "k": "l", "target": target}
